@@ -243,7 +243,7 @@ func C03(r *core.Run) {
 		// one line: every command, 2 (quick) / 3 (thorough) deviations
 		add([]string{a}, r.Pick(2, 3), all...)
 		for _, b := range menu {
-			if r.Degraded() {
+			if r.Degraded() || !inproc.ShimAvailable {
 				break
 			}
 			// two lines: every command at 1 deviation; thorough: generate and format at 2
